@@ -57,7 +57,7 @@ class TaskResult:
         self.evaluations = 0
         self.cases = 0
         self.nontrivial = 0
-        self.digests = set()
+        self.digests = {}  # digest -> weight (1, or the number of distinct sub-evaluations of the case)
         self.digest_overflow = False
         self.classes: Dict[str, int] = {}
         self.samples: List[Any] = []
@@ -80,7 +80,7 @@ class TaskResult:
         if nt:
             self.nontrivial += 1
             if len(self.digests) < DIGEST_CAP:
-                self.digests.add(digest(case))
+                self.digests[digest(case)] = max(1, evals) if clause.weight_by_evals else 1
             else:
                 self.digest_overflow = True
             self._nt_seen += 1
@@ -141,7 +141,8 @@ def _run_given(strategy, seed, n, body, shrink):
 
 def _collect_given(clause: Clause, seed: int, n: int, res: TaskResult):
     def body(case):
-        res.note_case(clause, case, clause.run_check(case))
+        devs = clause.run_check(case)
+        res.note_case(clause, case, devs, evals=clause.last_evals)
 
     _run_given(clause.strategy(), seed, n, body, shrink=False)
 
@@ -188,7 +189,8 @@ def _shrink_given(clause: Clause, seed: int, n: int, sub: str, cap: int):
 def _collect_enum(clause: Clause, tier, seed, shard, nshards, res: TaskResult):
     rng = random.Random(seed)
     for case in clause.enum(tier, shard, nshards, rng):
-        res.note_case(clause, case, clause.run_check(case))
+        devs = clause.run_check(case)
+        res.note_case(clause, case, devs, evals=clause.last_evals)
 
 
 # ---- history ---------------------------------------------------------------------------------
@@ -410,6 +412,7 @@ def run_regressions(prop, known):
 
 def run_property(prop_id: str, tier: str, base_seed: int, only: Optional[str] = None, procs: Optional[int] = None) -> int:
     t0 = time.time()
+    os.environ["VERIF_TIER_ACTIVE"] = tier
     prop = load_property(prop_id)
     known = read_known_findings(prop_id)
     shrink_cap = 150 if tier == "quick" else 1500
@@ -443,17 +446,17 @@ def run_property(prop_id: str, tier: str, base_seed: int, only: Optional[str] = 
     # merge ------------------------------------------------------------------------------
     per_clause: Dict[str, Dict[str, Any]] = {}
     buckets: Dict[str, Dict[str, Any]] = {}
-    all_digests = set()
+    all_digests = {}
     overflow = False
     for r in results:
         pc = per_clause.setdefault(
             r["clause_id"],
-            {"evaluations": 0, "cases": 0, "nontrivial": 0, "digests": set(), "classes": {}, "samples": [], "wall_s": 0.0, "shards": 0},
+            {"evaluations": 0, "cases": 0, "nontrivial": 0, "digests": {}, "classes": {}, "samples": [], "wall_s": 0.0, "shards": 0},
         )
         pc["evaluations"] += r["evaluations"]
         pc["cases"] += r["cases"]
         pc["nontrivial"] += r["nontrivial"]
-        pc["digests"] |= r["digests"]
+        pc["digests"].update(r["digests"])
         overflow = overflow or r["digest_overflow"]
         pc["wall_s"] += r["wall"]
         pc["shards"] += 1
@@ -505,7 +508,7 @@ def run_property(prop_id: str, tier: str, base_seed: int, only: Optional[str] = 
         violations.append((sig, rel, "regression case fails again: " + detail, 1))
 
     for c in clauses:
-        all_digests |= per_clause[c.id]["digests"] if c.id in per_clause else set()
+        all_digests.update(per_clause[c.id]["digests"] if c.id in per_clause else {})
 
     wall = time.time() - t0
     _write_evidence(prop, tier, base_seed, clauses, per_clause, buckets, known, violations, all_digests, overflow, nreg, wall, vacuous, only)
@@ -518,7 +521,7 @@ def run_property(prop_id: str, tier: str, base_seed: int, only: Optional[str] = 
     total_eval = sum(pc["evaluations"] for pc in per_clause.values())
     print(
         f"[{prop_id} {tier} seed={base_seed}] clauses={len(clauses)} evaluations={total_eval} "
-        f"distinct_nontrivial={len(all_digests)} regressions_replayed={nreg} buckets={len(buckets)} "
+        f"distinct_nontrivial={sum(all_digests.values())} regressions_replayed={nreg} buckets={len(buckets)} "
         f"violations={len(violations)} wall={wall:.1f}s"
     )
     if violations:
@@ -544,7 +547,7 @@ def _write_evidence(prop, tier, seed, clauses, per_clause, buckets, known, viola
             "evaluations": pc["evaluations"],
             "cases": pc["cases"],
             "nontrivial": pc["nontrivial"],
-            "distinct_nontrivial": len(pc["digests"]),
+            "distinct_nontrivial": sum(pc["digests"].values()),
             "classes": dict(sorted(pc["classes"].items())),
             "rule": c.rule,
             "shards": pc["shards"],
@@ -561,7 +564,7 @@ def _write_evidence(prop, tier, seed, clauses, per_clause, buckets, known, viola
         "level": prop.level,
         "coverage": {
             "evaluations": sum(pc["evaluations"] for pc in per_clause.values()),
-            "distinct_nontrivial": len(all_digests),
+            "distinct_nontrivial": sum(all_digests.values()),
             "distinct_count_is_lower_bound": overflow,
             "rule": prop.rule,
             "samples": samples,
